@@ -1,0 +1,379 @@
+//go:build verif
+
+package packet
+
+import (
+	"bytes"
+	"net"
+	"net/netip"
+)
+
+// C03: encoders write the wire layout, decoders read it back (round trips are
+// lemmas over the encoder contracts and the getters), AppendPayload rejects a
+// payload that does not fit.
+
+// spec_disjoint: a[0:len) and b[0:len) do not overlap.
+func spec_disjoint(a, b []byte) bool {
+	return !vSameRegion(a, b) || vOffset(a, b)+len(a) <= 0 || len(b) <= vOffset(a, b)
+}
+
+// spec_eq_bytes: a[i] == b[i] for all i < n.
+func spec_eq_bytes(a, b []byte, n int) bool {
+	return vForall(0, n, func(i int) bool { return a[i] == b[i] })
+}
+
+// ---------- Ethernet ----------
+
+//verif:props C03
+func verif_contract_EncodeEther(b []byte, hType uint16, srcMAC net.HardwareAddr, dstMAC net.HardwareAddr) Ether {
+	vRequires(cap(b) >= 14 && len(srcMAC) == 6 && len(dstMAC) == 6)
+	vRequires(spec_disjoint(srcMAC, b[:14]) && spec_disjoint(dstMAC, b[:14]))
+	vCanary()
+	vModifiesBytes(b[:14])
+	e := EncodeEther(b, hType, srcMAC, dstMAC)
+	vEnsures(len(e) == 14 && cap(e) == cap(b) && vSameRegion(e, b) && vOffset(e, b) == 0)
+	vEnsures(spec_be16(e, 12) == hType)
+	vEnsures(e[0] == dstMAC[0] && e[1] == dstMAC[1] && e[2] == dstMAC[2] && e[3] == dstMAC[3] && e[4] == dstMAC[4] && e[5] == dstMAC[5])
+	vEnsures(e[6] == srcMAC[0] && e[7] == srcMAC[1] && e[8] == srcMAC[2] && e[9] == srcMAC[3] && e[10] == srcMAC[4] && e[11] == srcMAC[5])
+	return e
+}
+
+//verif:props C03
+func verif_contract_Ether_SetPayload(p Ether, payload []byte) (Ether, error) {
+	vRequires(len(p) >= 14 && 14+len(payload) <= cap(p))
+	vRequires(spec_be16(p, 12) != 0x8100 && spec_be16(p, 12) != 0x88a8) // untagged frame, 14 byte header
+	e, err := p.SetPayload(payload)
+	vEnsures(err == nil && len(e) == 14+len(payload) && vSameRegion(e, p) && vOffset(e, p) == 0 && cap(e) == cap(p))
+	return e, err
+}
+
+//verif:props C03
+//verif:timeout 150s
+func verif_contract_Ether_AppendPayload(p Ether, payload []byte) (Ether, error) {
+	vRequires(len(p) >= 14)
+	vRequires(spec_be16(p, 12) != 0x8100 && spec_be16(p, 12) != 0x88a8)
+	vRequires(spec_disjoint(payload, p[:cap(p)]))
+	vCanary()
+	if len(payload)+14 <= cap(p) {
+		// the payload area and, for short frames, the zero padding up to 60 bytes
+		vModifiesBytes(p[:cap(p)][14 : 14+len(payload)])
+		if 14+len(payload) < 60 && cap(p) >= 60 {
+			vModifiesBytes(p[:cap(p)][14+len(payload) : 60])
+		}
+	}
+	e, err := p.AppendPayload(payload)
+	if len(payload)+14 > cap(p) {
+		vEnsures(e == nil && err == ErrPayloadTooBig)
+	} else {
+		vEnsures(err == nil && vSameRegion(e, p) && vOffset(e, p) == 0)
+		vEnsures(len(e) >= 14+len(payload))
+		vEnsures(vForall(0, len(payload), func(i int) bool { return e[14+i] == payload[i] }))
+	}
+	return e, err
+}
+
+//verif:props C03
+func verif_lemma_ether_roundtrip(b []byte, hType uint16, src, dst net.HardwareAddr) {
+	vRequires(cap(b) >= 14 && len(src) == 6 && len(dst) == 6)
+	vRequires(spec_disjoint(src, b[:14]) && spec_disjoint(dst, b[:14]))
+	e := EncodeEther(b, hType, src, dst)
+	vAssert(e.IsValid() == nil || hType == 0x8100 || hType == 0x88a8)
+	vAssert(e.EtherType() == hType)
+	vAssert(bytes.Equal(e.Src(), src) && bytes.Equal(e.Dst(), dst))
+}
+
+// ---------- IPv4 ----------
+
+func spec_ip4_hdr(p []byte) bool { return len(p) >= 20 && p[0] == 0x45 }
+
+//verif:props C03
+func verif_contract_EncodeIP4(p []byte, ttl byte, src netip.Addr, dst netip.Addr) IP4 {
+	vRequires(len(p) >= 20)
+	vCanary()
+	vModifiesBytes(p[:20])
+	r := EncodeIP4(p, ttl, src, dst)
+	vEnsures(len(r) == 20 && cap(r) == cap(p) && vSameRegion(r, p) && vOffset(r, p) == 0)
+	vEnsures(r[0] == 0x45 && r[8] == ttl && spec_be16(r, 2) == 20 && spec_be16(r, 6) == 0)
+	if src.Is4() {
+		vEnsures(spec_ip4_at(r, 12) == src)
+	} else {
+		vEnsures(spec_be32(r, 12) == 0)
+	}
+	if dst.Is4() {
+		vEnsures(spec_ip4_at(r, 16) == dst)
+	} else {
+		vEnsures(spec_be32(r, 16) == 0)
+	}
+	return r
+}
+
+//verif:props C03 C15
+func verif_contract_IP4_CalculateChecksum(p IP4) uint16 {
+	vRequires(len(p) >= 20)
+	r := p.CalculateChecksum()
+	return r
+}
+
+//verif:props C03
+func verif_contract_IP4_SetPayload(p IP4, b []byte, protocol byte) IP4 {
+	vRequires(len(p) >= 20 && 20+len(b) <= cap(p) && len(b) <= 65515)
+	vCanary()
+	vModifiesBytes(p[2:4])
+	vModifiesBytes(p[9:12])
+	r := p.SetPayload(b, protocol)
+	vEnsures(len(r) == 20+len(b) && vSameRegion(r, p) && vOffset(r, p) == 0 && cap(r) == cap(p))
+	vEnsures(r[9] == protocol && int(spec_be16(r, 2)) == 20+len(b))
+	return r
+}
+
+//verif:props C03
+func verif_contract_IP4_AppendPayload(p IP4, b []byte, protocol byte) (IP4, error) {
+	vRequires(len(p) == 20 && p[0] == 0x45 && len(b) <= 65515)
+	vRequires(spec_disjoint(b, p[:cap(p)]))
+	vCanary()
+	if cap(p)-len(p) >= len(b) {
+		vModifiesBytes(p[2:4])
+		vModifiesBytes(p[9:12])
+		vModifiesBytes(p[:cap(p)][20 : 20+len(b)])
+	}
+	r, err := p.AppendPayload(b, protocol)
+	if cap(p)-len(p) < len(b) {
+		vEnsures(r == nil && err == ErrPayloadTooBig)
+	} else {
+		vEnsures(err == nil && len(r) == 20+len(b) && vSameRegion(r, p) && vOffset(r, p) == 0 && cap(r) == cap(p))
+		vEnsures(r[9] == protocol && int(spec_be16(r, 2)) == 20+len(b))
+		vEnsures(vForall(0, len(b), func(i int) bool { return r[20+i] == b[i] }))
+	}
+	return r, err
+}
+
+//verif:props C03
+func verif_lemma_ip4_roundtrip(p []byte, ttl byte, src, dst netip.Addr, payload []byte, proto byte) {
+	vRequires(len(p) == 20 && src.Is4() && dst.Is4() && len(payload) <= 1480)
+	vRequires(spec_disjoint(payload, p[:cap(p)]))
+	vRequires(cap(p)-20 >= len(payload)) // the payload fits (the other case is the contract's ErrPayloadTooBig clause)
+	ip := EncodeIP4(p, ttl, src, dst)
+	ip2, err := ip.AppendPayload(payload, proto)
+	vCanary()
+	vAssert(err == nil)
+	vAssert(ip2.IsValid() == nil)
+	vAssert(ip2.Src() == src && ip2.Dst() == dst && ip2.TTL() == int(ttl) && ip2.Protocol() == proto)
+	vAssert(ip2.TotalLen() == 20+len(payload) && ip2.IHL() == 20)
+	vAssert(len(ip2.Payload()) == len(payload))
+}
+
+// ---------- IPv6 ----------
+
+//verif:props C03
+func verif_contract_EncodeIP6(p []byte, hopLimit uint8, srcIP netip.Addr, dstIP netip.Addr) IP6 {
+	vRequires(cap(p) >= 40 && srcIP.Is6() && dstIP.Is6())
+	vCanary()
+	vModifiesBytes(p[:40])
+	r := EncodeIP6(p, hopLimit, srcIP, dstIP)
+	vEnsures(len(r) == 40 && cap(r) == cap(p) && vSameRegion(r, p) && vOffset(r, p) == 0)
+	vEnsures(r[0] == 0x60 && r[7] == hopLimit && spec_be16(r, 4) == 0)
+	vEnsures(spec_ip6_at(r, 8) == srcIP && spec_ip6_at(r, 24) == dstIP)
+	return r
+}
+
+//verif:props C03
+func verif_contract_IP6_SetPayload(p IP6, b []byte, nextHeader uint8) IP6 {
+	vRequires(len(p) >= 40 && len(p)+len(b) <= cap(p) && len(b) <= 65535)
+	vModifiesBytes(p[4:7])
+	r := p.SetPayload(b, nextHeader)
+	vEnsures(len(r) == len(p)+len(b) && vSameRegion(r, p) && vOffset(r, p) == 0)
+	vEnsures(r[6] == nextHeader && int(spec_be16(r, 4)) == len(b))
+	return r
+}
+
+//verif:props C03
+func verif_contract_IP6_AppendPayload(p IP6, b []byte, nextHeader uint8) (IP6, error) {
+	vRequires(len(p) == 40 && len(b) <= 65535)
+	vRequires(spec_disjoint(b, p[:cap(p)]))
+	vCanary()
+	if b != nil && cap(p)-len(p) >= len(b) {
+		vModifiesBytes(p[4:7])
+		vModifiesBytes(p[:cap(p)][40 : 40+len(b)])
+	}
+	r, err := p.AppendPayload(b, nextHeader)
+	if b == nil || cap(p)-len(p) < len(b) {
+		vEnsures(r == nil && err == ErrPayloadTooBig)
+	} else {
+		vEnsures(err == nil && len(r) == 40+len(b) && vSameRegion(r, p) && vOffset(r, p) == 0 && cap(r) == cap(p))
+		vEnsures(r[6] == nextHeader && int(spec_be16(r, 4)) == len(b))
+		vEnsures(vForall(0, len(b), func(i int) bool { return r[40+i] == b[i] }))
+	}
+	return r, err
+}
+
+//verif:props C03
+//verif:timeout 150s
+func verif_lemma_ip6_roundtrip(p []byte, hop uint8, src, dst netip.Addr, payload []byte, nh uint8) {
+	vRequires(cap(p) >= 40 && src.Is6() && dst.Is6() && len(payload) <= 1460 && payload != nil)
+	vRequires(spec_disjoint(payload, p[:cap(p)]))
+	vRequires(cap(p)-40 >= len(payload))
+	ip := EncodeIP6(p, hop, src, dst)
+	ip2, err := ip.AppendPayload(payload, nh)
+	vCanary()
+	vAssert(err == nil)
+	vAssert(ip2.IsValid() == nil)
+	vAssert(ip2.Src() == src && ip2.Dst() == dst && ip2.HopLimit() == hop && ip2.NextHeader() == nh)
+	vAssert(int(ip2.PayloadLen()) == len(payload) && len(ip2.Payload()) == len(payload))
+}
+
+// ---------- UDP ----------
+
+//verif:props C03
+func verif_contract_EncodeUDP(p []byte, srcPort uint16, dstPort uint16) UDP {
+	if cap(p) >= 8 {
+		vModifiesBytes(p[:8])
+	}
+	r := EncodeUDP(p, srcPort, dstPort)
+	if cap(p) < 8 {
+		vEnsures(r == nil)
+	} else {
+		vEnsures(len(r) == 8 && cap(r) == cap(p) && vSameRegion(r, p) && vOffset(r, p) == 0)
+		vEnsures(spec_be16(r, 0) == srcPort && spec_be16(r, 2) == dstPort && spec_be16(r, 4) == 0 && spec_be16(r, 6) == 0)
+	}
+	return r
+}
+
+//verif:props C03
+func verif_contract_UDP_AppendPayload(p UDP, b []byte) (UDP, error) {
+	vRequires(len(p) == 8 && len(b) <= 65527)
+	vRequires(spec_disjoint(b, p[:cap(p)]))
+	vCanary()
+	if cap(p)-len(p) >= len(b) {
+		vModifiesBytes(p[4:8])
+		vModifiesBytes(p[:cap(p)][8 : 8+len(b)])
+	}
+	r, err := p.AppendPayload(b)
+	if cap(p)-len(p) < len(b) {
+		vEnsures(r == nil && err == ErrPayloadTooBig)
+	} else {
+		vEnsures(err == nil && len(r) == 8+len(b) && vSameRegion(r, p) && vOffset(r, p) == 0 && cap(r) == cap(p))
+		vEnsures(int(spec_be16(r, 4)) == 8+len(b) && spec_be16(r, 6) == 0)
+		vEnsures(vForall(0, len(b), func(i int) bool { return r[8+i] == b[i] }))
+	}
+	return r, err
+}
+
+//verif:props C03
+func verif_contract_UDP_SetPayload(p UDP, b []byte) UDP {
+	vRequires(len(p) >= 8 && len(p)+len(b) <= cap(p) && len(b) <= 65527)
+	vModifiesBytes(p[4:8])
+	r := p.SetPayload(b)
+	vEnsures(len(r) == len(p)+len(b) && vSameRegion(r, p) && vOffset(r, p) == 0)
+	vEnsures(int(spec_be16(r, 4)) == 8+len(b) && spec_be16(r, 6) == 0)
+	return r
+}
+
+//verif:props C03
+func verif_lemma_udp_roundtrip(p []byte, sport, dport uint16, payload []byte) {
+	vRequires(cap(p) >= 8 && len(payload) <= 1472)
+	vRequires(spec_disjoint(payload, p[:cap(p)]))
+	vRequires(cap(p)-8 >= len(payload))
+	u := EncodeUDP(p, sport, dport)
+	u2, err := u.AppendPayload(payload)
+	vCanary()
+	vAssert(err == nil)
+	vAssert(u2.IsValid() == nil && u2.SrcPort() == sport && u2.DstPort() == dport)
+	vAssert(int(u2.Len()) == 8+len(payload) && len(u2.Payload()) == len(payload))
+}
+
+// ---------- ARP ----------
+
+//verif:props C03
+//verif:timeout 150s
+func verif_contract_EncodeARP(b []byte, operation uint16, srcAddr Addr, dstAddr Addr) ARP {
+	vRequires(cap(b) >= 28 && len(srcAddr.MAC) >= 6 && len(dstAddr.MAC) >= 6 && srcAddr.IP.Is4() && dstAddr.IP.Is4())
+	vRequires(spec_disjoint(srcAddr.MAC, b[:28]) && spec_disjoint(dstAddr.MAC, b[:28]))
+	vCanary()
+	vModifiesBytes(b[:28])
+	r := EncodeARP(b, operation, srcAddr, dstAddr)
+	vEnsures(len(r) == 28 && vSameRegion(r, b) && vOffset(r, b) == 0)
+	vEnsures(spec_be16(r, 0) == 1 && spec_be16(r, 2) == 0x0800 && r[4] == 6 && r[5] == 4 && spec_be16(r, 6) == operation)
+	vEnsures(spec_ip4_at(r, 14) == srcAddr.IP)
+	vEnsures(spec_ip4_at(r, 24) == dstAddr.IP)
+	vEnsures(r[8] == srcAddr.MAC[0] && r[9] == srcAddr.MAC[1] && r[10] == srcAddr.MAC[2] && r[11] == srcAddr.MAC[3] && r[12] == srcAddr.MAC[4] && r[13] == srcAddr.MAC[5])
+	vEnsures(r[18] == dstAddr.MAC[0] && r[19] == dstAddr.MAC[1] && r[20] == dstAddr.MAC[2] && r[21] == dstAddr.MAC[3] && r[22] == dstAddr.MAC[4] && r[23] == dstAddr.MAC[5])
+	return r
+}
+
+//verif:props C03
+func verif_lemma_arp_roundtrip(b []byte, op uint16, src, dst Addr) {
+	vRequires(cap(b) >= 28 && len(src.MAC) == 6 && len(dst.MAC) == 6 && src.IP.Is4() && dst.IP.Is4())
+	vRequires(spec_disjoint(src.MAC, b[:28]) && spec_disjoint(dst.MAC, b[:28]))
+	a := EncodeARP(b, op, src, dst)
+	vCanary()
+	vAssert(a.IsValid() == nil)
+	vAssert(a.Operation() == op && a.SrcIP() == src.IP && a.DstIP() == dst.IP)
+	vAssert(bytes.Equal(a.SrcMAC(), src.MAC) && bytes.Equal(a.DstMAC(), dst.MAC))
+}
+
+// ---------- ICMP echo ----------
+
+//verif:props C03
+func verif_contract_EncodeICMPEcho(b []byte, t uint8, code uint8, id uint16, seq uint16, data []byte) ICMPEcho {
+	vRequires(spec_disjoint(data, b[:cap(b)]))
+	vCanary()
+	if 8+len(data) <= cap(b) {
+		vModifiesBytes(b[:8+len(data)])
+	}
+	r := EncodeICMPEcho(b, t, code, id, seq, data)
+	if 8+len(data) > cap(b) {
+		vEnsures(r == nil)
+	} else {
+		vEnsures(len(r) == 8+len(data) && vSameRegion(r, b) && vOffset(r, b) == 0)
+		vEnsures(r[0] == t && r[1] == code && spec_be16(r, 2) == 0 && spec_be16(r, 4) == id && spec_be16(r, 6) == seq)
+		vEnsures(vForall(0, len(data), func(i int) bool { return r[8+i] == data[i] }))
+	}
+	return r
+}
+
+//verif:props C03
+func verif_lemma_icmpecho_roundtrip(b []byte, t, code uint8, id, seq uint16, data []byte) {
+	vRequires(spec_disjoint(data, b[:cap(b)]) && 8+len(data) <= cap(b))
+	e := EncodeICMPEcho(b, t, code, id, seq, data)
+	vCanary()
+	vAssert(e.IsValid() == nil && e.Type() == t && e.Code() == code && e.EchoID() == id && e.EchoSeq() == seq)
+	vAssert(len(e.EchoData()) == len(data))
+}
+
+// ---------- NDP neighbour solicitation / advertisement ----------
+
+//verif:props C03
+func verif_lemma_na_roundtrip(router, solicited, override bool, target Addr) {
+	vRequires(target.IP.Is6() && len(target.MAC) == 6)
+	b := ICMP6NeighborAdvertisementMarshal(router, solicited, override, target)
+	vCanary()
+	na := ICMP6NeighborAdvertisement(b)
+	vAssert(len(b) == 32 && na.IsValid() == nil && na.Type() == 136 && na.Code() == 0)
+	vAssert(na.Router() == router && na.Solicited() == solicited && na.Override() == override)
+	vAssert(na.TargetAddress() == target.IP)
+	vAssert(bytes.Equal(na.TargetLLA(), target.MAC))
+}
+
+//verif:props C03
+func verif_lemma_ns_roundtrip(target netip.Addr, sourceLLA net.HardwareAddr) {
+	vRequires(target.Is6() && len(sourceLLA) == 6)
+	b, err := ICMP6NeighborSolicitationMarshal(target, sourceLLA)
+	vCanary()
+	ns := ICMP6NeighborSolicitation(b)
+	vAssert(err == nil && len(b) == 32 && ns.IsValid() == nil && ns.Type() == 135 && ns.Code() == 0)
+	vAssert(ns.TargetAddress() == target)
+	vAssert(bytes.Equal(ns.SourceLLA(), sourceLLA))
+}
+
+// ---------- DNS query ----------
+
+//verif:props C03
+func verif_lemma_dnsquery_roundtrip(tranID uint16, flags uint16, name []byte, qtype uint16) {
+	vRequires(len(name) <= 255)
+	q := EncodeDNSQuery(tranID, flags, name, qtype)
+	vCanary()
+	vAssert(q.IsValid() == nil && len(q) == 16+len(name))
+	vAssert(q.TransactionID() == tranID && q.QDCount() == 1 && q.ANCount() == 0 && q.NSCount() == 0 && q.ARCount() == 0)
+	vAssert(spec_be16(q, 2) == flags)
+	vAssert(spec_be16(q, 12+len(name)) == qtype && spec_be16(q, 14+len(name)) == 1)
+}
